@@ -173,6 +173,36 @@ pub fn run(ctx: &mut Ctx) {
         emit_program(ctx, &base, &src);
         ctx.tag("oracle:zero-trip");
     }
+    // oracle 4: a program stopped by a run-time error inside its loops leaves their records behind (the failed
+    // program stays paused for inspection); they belong to that program: the next source starts with no loop of its
+    // own, so `I` `J` `K` in it see only the loops it opens itself
+    for _ in 0..(ctx.n / 8).max(30) {
+        let k = ctx.rng.range(0, 3);
+        let failing = match ctx.rng.below(4) {
+            0 => format!("5 0 do I {} == if \"x\" 1 + then loop", k),
+            1 => format!("3 0 do 4 0 do I {} == if 1 0 / then loop loop", k),
+            2 => format!("[ 7 8 9 ] foreach I {} == if nil 1 + then loop", 7 + k),
+            _ => format!(": lf 4 0 do I {} == if 1 0 / then loop ; 2 0 do lf loop", k),
+        };
+        let probe = *ctx.rng.pick(&["I", "J", "K", "1 0 do J loop", "1 0 do K loop", "1 0 do 1 0 do K loop loop", "[ 1 ] foreach J loop", ": pi I ; pi", ": pj 1 0 do J loop ; pj"]);
+        let mut xs = base.clone();
+        let r0 = crate::guarded(|| xs.eval(&failing));
+        if !matches!(r0, Some(Err(_))) { ctx.tag("oracle:loop-leftover:did-not-fail"); continue; }
+        let abort = ctx.rng.bool();
+        if abort { xs.abort_run(); }
+        {
+            // the same history for the session model
+            use crate::props::c10::{correspondence, Op};
+            let mut ops = vec![Op::Eval(failing.clone())];
+            if abort { ops.push(Op::Abort); }
+            ops.push(Op::Eval(probe.to_string()));
+            correspondence(ctx, "C01", &ops);
+        }
+        let r = crate::guarded(|| xs.eval(probe));
+        let ok = matches!(r, Some(Err(Xerr::LoopStackUnderflow)));
+        ctx.check(ok, || format!("C01 `{}` (fails at run time) then `{}`", failing, probe), || "err LoopStackUnderflow (the loops of the failed program are not the new program's)".into(), || format!("{:?}", r));
+        ctx.tag("oracle:loop-leftover");
+    }
     // oracle 3: structurally endless loops never fall through
     for _ in 0..(ctx.n / 4).max(50) {
         let (body, _) = gen_program(&mut ctx.rng, &GenCfg { defs: false, vars: false, malformed_percent: 0, max_depth: 1, max_stmts: 2, ..GenCfg::default() });
